@@ -172,6 +172,27 @@ def check(rep, tier, seed):
                      expected=(want.decode()[:300] if want_ok else "error (one of the statistics is not defined for this shape)"),
                      detail="several statistics in one invocation must print the single-statistic values in the order requested, with -H their names")
 
+    # (a'') the precision option at and beyond the formatter's limit (65535 decimals): the VALUE printed is the statistic
+    from common import text_spectrum
+    pj, pm = [], []
+    for st, sh, data in [c for c in cases if c[0] in ("pi", "theta", "f2", "fst", "pi-xy", "d-tajima")][:: 5][:8]:
+        for p_ in ("30", "300", "65535", "65536", "100000", "4294967296"):
+            pj.append((["stat", "-s", st, "--precision", p_], text_spectrum(sh, list(map(str, data))))); pm.append((st, sh, data, p_))
+    pres = run_cli_many(pj)
+    ref15 = {(st, tuple(sh), tuple(data)): v for (st, sh, data), (rc, v, se, so) in zip(cases, res)}
+    for (st, sh, data, p_), (rc, so, se) in zip(pm, pres):
+        want = ref15.get((st, tuple(sh), tuple(data)))
+        rep.count("stat-precision-extremes", "stat -s %s --precision %s" % (st, p_), True)
+        if want is None or want != want or abs(want) == float("inf"):
+            continue            # undefined on this spectrum
+        try:
+            got = float(so.decode().strip()[:400]) if rc == 0 else None
+        except ValueError:
+            got = None
+        if is_panic(rc, se) or got is None or not close(got, want, tol=1e-9):
+            rep.fail(kind="property-oracle", cls="stat:precision-extreme", case="stat -s %s --precision %s on %s" % (st, p_, fmt(sh)), argv=["sfs", "stat", "-s", st, "--precision", p_],
+                     stdin=text_spectrum(sh, list(map(str, data))).decode(), observed={"rc": rc, "stdout": so.decode(errors="replace")[:60]}, expected=repr(want),
+                     detail="a very large --precision must still print the statistic's value (more decimals, not another number)")
     # (b) end to end against the definitions on genotypes
     e2e = []
     for k in range(30 if tier == "quick" else 300):
